@@ -332,13 +332,16 @@ func GenURI(rng *rand.Rand, vid int) string {
 }
 
 func genHeaderValue(rng *rand.Rand) string {
-	switch rng.Intn(6) {
+	switch rng.Intn(7) {
 	case 0:
 		return ""
 	case 1:
 		return "a: b; c=d"
 	case 2:
 		return "v [x] y"
+	case 3:
+		// brackets at the ends of the value: in-file header lines are themselves bracketed
+		return []string{"[1,2,3]", "items[0]", "[::1]", "]x[", "[[nested]]", "[", "]"}[rng.Intn(7)]
 	default:
 		return genToken(rng, 1+rng.Intn(12), pathChars+" ;=,/")
 	}
